@@ -783,7 +783,7 @@ class SampledStack(_StaticDirMixin, Suite):
     req_succeeded at that point of the stack; the decision table is evaluated on that record."""
 
     name = 'sampled_stack'
-    budget = {'quick': 10000, 'thorough': 300000}
+    budget = {'quick': 10000, 'thorough': 200000}
 
     def strategy(self, tier):
         return _SAMPLED
